@@ -312,6 +312,11 @@ class Lowerer:
             elif k == 'CXXCtorInitializer':
                 inner = [x for x in c.get('inner', ()) if isinstance(x, dict) and x.get('kind')]
                 e = self.expr(inner[0]) if inner else None
+                if inner and inner[0].get('kind') == 'CXXDefaultInitExpr' and 'anyInit' in c and f.record is not None:
+                    # default member initialiser: the expression written at the member's declaration
+                    for fd in f.record.fields:
+                        if fd['id'] == c['anyInit'].get('id') and fd.get('init_raw') is not None:
+                            e = self.expr(fd['init_raw'])
                 if 'anyInit' in c:
                     inits.append(('field', getattr(self.p, 'field_alias', {}).get(c['anyInit'].get('id'),
                                                                                    c['anyInit'].get('name')),
@@ -490,6 +495,9 @@ class Lowerer:
             rk = rd.get('kind')
             rid = rd.get('id')
             if rk in ('ParmVarDecl', 'VarDecl', 'BindingDecl'):
+                sc = getattr(self.p, 'static_consts', {})
+                if rid in sc:
+                    return self.mk('lit', node, value=sc[rid])
                 probe = self.p.probes.get(rid)
                 if probe:
                     return self.mk('var', node, id=rid, name=rd.get('name'), probe=probe, extern=True)
